@@ -293,7 +293,7 @@ PROPS = {
                 'real TargetsDiscovery -> ActiveTargetsByHash -> JSON -> real Injector -> config.Load of the written file -> TargetsFromGroup on '
                 'the generated job -> real Proxy.ServeHTTP with a recording client. Compared: visible labels and the URL really requested. '
                 'non-trivial = the reference has >= 1 active target; distinct by input',
-        'theorems': 'C02_equivalent C02_equivalent_checked C02_equivalent_for_rules C02_equivalent_for_rules_checked C02_param_on_shard C02_proxy_restores C02_routing_param_forgotten '
+        'theorems': 'C02_equal C02_equal_for_rules_checked C02_equivalent C02_equivalent_checked C02_equivalent_for_rules C02_equivalent_for_rules_checked C02_param_on_shard C02_proxy_restores C02_routing_param_forgotten '
                     'C02_param_shipping C02_equiv_refuted_interval_labels C02_equiv_refuted_job_emptied (+ computed witnesses, C02_hypotheses_satisfiable)',
         'trusted_base': ['Model/Translate.v hand-written model of BOTH routes (library PopulateLabels/Target.URL as reference; kvass populateLabels, '
                          'param/invalid-name shipping, target2targetGroup, library PopulateLabels on the shard, translateURL); both are compared with '
@@ -306,11 +306,11 @@ PROPS = {
                         '__metrics_path__ non-empty (otherwise refuted: the shard\'s Prometheus fills them in again, known finding); (3) no relabelled name already carries '
                         'the invalid-label prefix or is a routing parameter name, __param_ names are valid names; (4) the job\'s params have unique '
                         'keys, none a routing name. The run evaluates these hypotheses on every generated entry (evidence: model_theorem_applies)',
-                        'label sets are compared as maps name -> value and queries key by key (what labels.Labels and url.Values are); the '
-                        'sorted-list representation is not part of the statement',
+                        'C02_equivalent compares label sets as maps name -> value and queries key by key; C02_equal lifts that to equality of '
+                        'the lists (both are canonical forms: sorted, unique, no empty value)',
                         'label names that the prefix cannot make valid (illegal characters) cannot be produced by Prometheus relabeling (labelmap can only '
                         'produce a leading digit); they would make the generated file invalid'],
-        'level_text': 'Proof: C02_equivalent - for every relabel function, port test, address check, interval check, job and discovered label set, '
+        'level_text': 'Proof: C02_equal (an EQUATION of the two routes, derived from C02_equivalent) - for every relabel function, port test, address check, interval check, job and discovered label set, '
                       'under the stated hypotheses on the relabel result, the sharded route (coordinator populateLabels, shipping of params and '
                       'invalid names, static group with routing params, the shard\'s own label population with the labelmap rule, the proxy\'s URL '
                       'translation) yields the same target as one plain Prometheus: dropped/failed alike, same visible labels, scheme, host, path, '
